@@ -685,10 +685,9 @@ Proof.
   unfold de_biguint, de_usize. apply post_bind_any. intros k.
   destruct (k =? 1). { apply post_bind_any. intros x. apply post_ret. reflexivity. }
   destruct (k =? 2); [|apply post_fail].
-  apply post_bind_any. intros n. rewrite Hval. cbn [andb]. destruct (n =? 0) eqn:E; [apply post_fail|].
-  apply post_bind_any. intros _.
-  eapply post_bind. { apply (post_list _ (fun _ => true)). intros bs a r _. reflexivity. }
-  intros v [_ Hl]. apply post_ret. cbn [wfs_biguint]. rewrite Hl, E. reflexivity.
+  apply post_bind_any. intros n. apply post_bind_any. intros _. apply post_bind_any. intros v.
+  rewrite Hval. cbn [andb]. destruct (len_N v =? 0) eqn:E; [apply post_fail|].
+  apply post_ret. cbn [wfs_biguint]. rewrite E. reflexivity.
 Qed.
 Lemma post_bigrat : post (fun q => wfs_bigrat q = true) (de_bigrat c).
 Proof.
